@@ -7,7 +7,7 @@ from typing import Any, Dict, Optional
 
 from .parser import Parser
 from .compiler import Compiler
-from .vm import VM
+from .vm import VM, _ThrowSignal
 from .values import (
     UNDEFINED,
     NULL,
@@ -942,11 +942,10 @@ class Context:
                 else:
                     # Fallback: return a simple empty function
                     return JSFunction("anonymous", params, bytes(), {})
-            except (TimeLimitError, MemoryLimitError):
+            except JSError:
+                # a syntax error in the body is a catchable SyntaxError
                 raise
             except Exception as e:
-                from .errors import JSError
-
                 raise JSError(f"SyntaxError: {str(e)}")
 
         fn_constructor = JSCallableObject(function_constructor_fn)
@@ -1097,15 +1096,18 @@ class Context:
 
                 vm = VM(ctx.memory_limit, ctx.time_limit)
                 vm.globals = ctx._globals
+                # An exception the evaluated code does not catch continues
+                # in the code that called eval()
+                vm.propagate_uncaught = True
                 # Nested code runs against the deadline of the outer eval
                 if ctx._current_vm is not None:
                     vm.start_time = ctx._current_vm.start_time
                 return vm.run(bytecode_module)
-            except (TimeLimitError, MemoryLimitError):
-                raise  # a limit stops the whole evaluation, not just eval()
+            except (JSError, _ThrowSignal):
+                # Script exceptions and syntax errors reach the calling code
+                # (which may catch them); a limit stops the whole evaluation
+                raise
             except Exception as e:
-                from .errors import JSError
-
                 raise JSError(f"EvalError: {str(e)}")
             finally:
                 ctx._eval_depth -= 1
